@@ -8,6 +8,7 @@ import (
 	"go/ast"
 	"go/parser"
 	"go/token"
+	"go/types"
 	"strconv"
 	"strings"
 	"time"
@@ -419,6 +420,143 @@ func entryRemovedInGoroutine(fn *ast.FuncDecl) bool {
 	return n > 0 && ok
 }
 
+// claimsEntryInHandler: does the handler itself (its top-level statements, outside the goroutines it starts) look
+// the task up in `<…>.activeTasks[K]` AND `delete(<…>.activeTasks, K)` with the same key between one `M.Lock()`
+// and the next `M.Unlock()` of the same mutex, and is no look-up of the handler outside such a section (a second
+// KILL handled right after this one cannot find the task again).
+func claimsEntryInHandler(fn *ast.FuncDecl) bool {
+	lockCall := func(st ast.Stmt, name string) (string, bool) {
+		es, ok := st.(*ast.ExprStmt)
+		if !ok {
+			return "", false
+		}
+		c, ok := es.X.(*ast.CallExpr)
+		if !ok || len(c.Args) != 0 {
+			return "", false
+		}
+		sel, ok := c.Fun.(*ast.SelectorExpr)
+		if !ok || sel.Sel.Name != name {
+			return "", false
+		}
+		return types.ExprString(sel.X), true
+	}
+	lookups := func(n ast.Node) (keys []string) {
+		ast.Inspect(n, func(x ast.Node) bool {
+			if _, is := x.(*ast.FuncLit); is {
+				return false
+			}
+			if ix, is := x.(*ast.IndexExpr); is {
+				if sel, is := ix.X.(*ast.SelectorExpr); is && sel.Sel.Name == "activeTasks" {
+					keys = append(keys, types.ExprString(ix.Index))
+				}
+			}
+			return true
+		})
+		return
+	}
+	deletes := func(n ast.Node) (keys []string) {
+		ast.Inspect(n, func(x ast.Node) bool {
+			if _, is := x.(*ast.FuncLit); is {
+				return false
+			}
+			if c, is := x.(*ast.CallExpr); is && len(c.Args) == 2 {
+				if id, is := c.Fun.(*ast.Ident); is && id.Name == "delete" {
+					if sel, is := c.Args[0].(*ast.SelectorExpr); is && sel.Sel.Name == "activeTasks" {
+						keys = append(keys, types.ExprString(c.Args[1]))
+					}
+				}
+			}
+			return true
+		})
+		return
+	}
+	claimed, stray := false, false
+	held := ""
+	var looked, deleted []string
+	for _, st := range fn.Body.List {
+		if m, ok := lockCall(st, "Lock"); ok && held == "" {
+			held, looked, deleted = m, nil, nil
+			continue
+		}
+		if m, ok := lockCall(st, "Unlock"); ok && held != "" && m == held {
+			for _, k := range looked {
+				for _, d := range deleted {
+					if k == d {
+						claimed = true
+					}
+				}
+			}
+			if len(looked) > 0 && !claimed {
+				stray = true
+			}
+			held = ""
+			continue
+		}
+		if held != "" {
+			looked = append(looked, lookups(st)...)
+			deleted = append(deleted, deletes(st)...)
+		} else if len(lookups(st)) > 0 {
+			stray = true
+		}
+	}
+	return claimed && !stray && held == ""
+}
+
+// ownsCmd: does fn keep the command returned by prepareTaskCmd in a local variable that is assigned only there,
+// call StdoutPipe/StderrPipe/Start/Wait on that variable only (Start and Wait at least once), and never READ the
+// field `<…>.<field>` — the field occurs only as the target of plain assignments (it is published, not used)?
+func ownsCmd(fn *ast.FuncDecl, field string) bool {
+	local := ""
+	assigned := map[string]int{}
+	targets := map[ast.Expr]bool{}
+	ast.Inspect(fn, func(x ast.Node) bool {
+		as, ok := x.(*ast.AssignStmt)
+		if !ok {
+			return true
+		}
+		for _, l := range as.Lhs {
+			if id, ok := l.(*ast.Ident); ok {
+				assigned[id.Name]++
+			}
+			if as.Tok == token.ASSIGN {
+				targets[l] = true
+			}
+		}
+		if len(as.Rhs) == 1 {
+			if c, ok := as.Rhs[0].(*ast.CallExpr); ok {
+				if id, ok := c.Fun.(*ast.Ident); ok && id.Name == "prepareTaskCmd" && len(as.Lhs) >= 1 {
+					if v, ok := as.Lhs[0].(*ast.Ident); ok {
+						local = v.Name
+					}
+				}
+			}
+		}
+		return true
+	})
+	if local == "" || assigned[local] != 1 {
+		return false
+	}
+	ok := true
+	ast.Inspect(fn, func(x ast.Node) bool {
+		if sel, is := x.(*ast.SelectorExpr); is && sel.Sel.Name == field && !targets[ast.Expr(sel)] {
+			ok = false // the field is read
+		}
+		return true
+	})
+	for _, m := range []string{"StdoutPipe", "StderrPipe", "Start", "Wait"} {
+		cs := methodCalls(fn, m)
+		if len(cs) == 0 && (m == "Start" || m == "Wait") {
+			ok = false
+		}
+		for _, c := range cs {
+			if id, is := c.Fun.(*ast.SelectorExpr).X.(*ast.Ident); !is || id.Name != local {
+				ok = false
+			}
+		}
+	}
+	return ok
+}
+
 func isFieldSel(e ast.Expr, field string) bool {
 	sel, ok := e.(*ast.SelectorExpr)
 	return ok && sel.Sel.Name == field
@@ -646,6 +784,8 @@ func genExecTask(repo string) (string, error) {
 	fmt.Fprintf(&b, "/-- handleKillEvent calls Kill from a goroutine it starts. -/\ndef killServedInGoroutine : Bool := %s\n\n", lb(servedInGoroutine(hkill, "Kill")))
 	fmt.Fprintf(&b, "/-- both handlers read activeTasks[…] themselves, outside the goroutines they start. -/\ndef lookupInHandler : Bool := %s\n\n", lb(lookupInHandler(hmsg) && lookupInHandler(hkill)))
 	fmt.Fprintf(&b, "/-- handleKillEvent removes the entry from activeTasks only inside the goroutine. -/\ndef killRemovesEntryInGoroutine : Bool := %s\n\n", lb(entryRemovedInGoroutine(hkill)))
+	fmt.Fprintf(&b, "/-- handleKillEvent looks the task up and deletes its entry from activeTasks in ONE critical section of the handler itself (same mutex, same key), and looks it up nowhere else. -/\ndef killClaimsEntryInHandler : Bool := %s\n\n", lb(claimsEntryInHandler(hkill)))
+	fmt.Fprintf(&b, "/-- startBasicTask keeps the command prepareTaskCmd returned in a local variable assigned once, calls StdoutPipe/StderrPipe/Start/Wait on that variable only, and never reads the field t.taskCmd (it only assigns it). -/\ndef startOwnsCmd : Bool := %s\n\n", lb(ownsCmd(startBasic, "taskCmd")))
 	fmt.Fprintf(&b, "/-- the reaper goroutine of startBasicTask copies t.taskCmd when it runs (not before it is started). -/\ndef reaperCopiesCmdInGoroutine : Bool := %s\n\n", lb(copiesFieldInGoroutine(startBasic, "taskCmd")))
 	fmt.Fprintf(&b, "/-- startBasicTask calls Start() through the field t.taskCmd. -/\ndef startThroughField : Bool := %s\n\n", lb(callsThroughField(startBasic, "taskCmd", "Start")))
 	fmt.Fprintf(&b, "/-- basicTaskBase.Kill sets t.taskCmd = nil. -/\ndef basicKillClearsCmd : Bool := %s\n\n", lb(assignsNilToField(bkill, "taskCmd")))
